@@ -2020,6 +2020,13 @@ steps:
 			}
 		}
 	}
+	// a web UI that was given a free port and still could not listen lost it to a case running in parallel (the
+	// port is chosen, released, and bound again by the child): the machine's doing, not git-bug's
+	for _, p := range e.procs {
+		if p.kind != "webui-busy" && strings.Contains(p.stderr(), "bind: address already in use") {
+			return Case{Skip: fmt.Sprintf("process %d lost its free port to another case running in parallel", p.id)}
+		}
+	}
 	if e.askExpired {
 		return Case{Skip: "the case went on for more than 25 s after a webui was asked to stop (its shutdown gives up after 30 s)"}
 	}
